@@ -28,6 +28,7 @@ from lib import harness  # noqa: E402
 from checks import c20  # noqa: E402
 
 OUT = None
+CUR = None  # file descriptor of OUT/current.json
 SEEN = set()
 COUNT = 0
 NONTRIVIAL = 0
@@ -66,6 +67,10 @@ def decode(data: bytes):
 def TestOneInput(data: bytes):
     global COUNT, NONTRIVIAL
     case = decode(data)
+    if CUR is not None:
+        # what is being evaluated right now: read by the driver if libFuzzer has to kill this process (-timeout)
+        blob = json.dumps(case).encode()
+        os.pwrite(CUR, blob + b" " * max(0, 4096 - len(blob)), 0)
     try:
         v = harness.guarded(c20.judge)(case)
     except harness.Invalid:
@@ -87,7 +92,7 @@ def TestOneInput(data: bytes):
 
 
 def main():
-    global OUT
+    global OUT, CUR
     argv = [sys.argv[0]]
     args = sys.argv[1:]
     i = 0
@@ -99,6 +104,8 @@ def main():
         else:
             argv.append(args[i])
             i += 1
+    if OUT:
+        CUR = os.open(os.path.join(OUT, "current.json"), os.O_RDWR | os.O_CREAT | os.O_TRUNC, 0o644)
     harness.capture()
     atheris.Setup(argv, TestOneInput)
     atheris.Fuzz()
